@@ -473,7 +473,9 @@ async def run_race(backend, refreshes, counters, seed):
         # the denied key is on the allow list too, so that only the deny list keeps it out
         L1 = [ref.key_from_seed("c16-m%d" % i).pk for i in range(3)] + [denied]
         L2 = [ref.key_from_seed("c16-m%d" % i).pk for i in range(2, 6)] + [denied]
-    cfg = {"analysis_delay": 0, "pubkey_whitelist": [],
+    whitelisted = ref.key_from_seed("c16-whitelisted").pk
+    # overlapping runs also carry a static whitelist: its keys belong to the enforced list at every instant
+    cfg = {"analysis_delay": 0, "pubkey_whitelist": [] if disjoint else [whitelisted],
            "dynamic_lists": {"check_interval": 7200, "allow_list_queries": [{"kinds": [3], "authors": [owner.pk]}], "deny_list_queries": [{"kinds": [10000], "authors": [reporter.pk]}]}}
     rig = R.Rig(backend=backend, config=cfg)
     await rig.start()
@@ -495,16 +497,17 @@ async def run_race(backend, refreshes, counters, seed):
             raise R.Inconclusive("lists did not build")
         in_refresh = threading.Event()
         stop = threading.Event()
-        stats = {"checks": 0, "during": 0, "outsider_admitted": 0, "denied_admitted": 0, "member_refused": 0}
+        stats = {"checks": 0, "during": 0, "outsider_admitted": 0, "denied_admitted": 0, "member_refused": 0, "whitelisted_refused": 0}
         lock = threading.Lock()
         member_always = L1[2]  # in L1 and (unless disjoint) in L2
 
         def checker():
             fo, fd, fm = types.SimpleNamespace(pubkey=outsider), types.SimpleNamespace(pubkey=denied), types.SimpleNamespace(pubkey=member_always)
+            fw = types.SimpleNamespace(pubkey=whitelisted)
             while not stop.is_set():
                 during = in_refresh.is_set()
                 res = []
-                for f in (fo, fd, fm):
+                for f in (fo, fd, fm, fw):
                     try:
                         dynamic_lists.is_pubkey_allowed(f, None)
                         res.append(True)
@@ -516,6 +519,7 @@ async def run_race(backend, refreshes, counters, seed):
                     stats["outsider_admitted"] += res[0]
                     stats["denied_admitted"] += res[1]
                     stats["member_refused"] += (not res[2])
+                    stats["whitelisted_refused"] += (not res[3])
 
         threads = [threading.Thread(target=checker, daemon=True) for _ in range(3)]
         code = dynamic_lists.ListBuilder.run_once.__code__
@@ -571,6 +575,11 @@ async def run_race(backend, refreshes, counters, seed):
             viols.append({"key": "race/deny-list-treated-as-empty", "msg": "[%s] a pubkey on the deny list before and after every refresh was admitted %d times (of %d checks)"
                           % (backend, stats["denied_admitted"], stats["checks"]), "replay": rp})
         rc["always_member_refused"] = rc.get("always_member_refused", 0) + stats["member_refused"]
+        if not disjoint:
+            rc["whitelist_checks"] = rc.get("whitelist_checks", 0) + stats["checks"]
+            if stats["whitelisted_refused"]:
+                viols.append({"key": "race/whitelisted-key-refused-during-refresh", "msg": "[%s] a key of the static whitelist was refused %d times (of %d checks, %d during refreshes) although the enforced allow list contains the whitelist before and after every refresh"
+                              % (backend, stats["whitelisted_refused"], stats["checks"], stats["during"]), "replay": rp})
     finally:
         await rig.close()
     return viols, nontrivial
